@@ -314,6 +314,235 @@ theorem meetTuple_ok (vr : Variant) {rec : Table → Nat → Nat → TRes} (hrec
         obtain ⟨f, hf, rfl⟩ := List.mem_map.mp hc
         exact ((hfofs f hf).inh_sub hsub13 [] [] v).mp hv
 
+/-- a partial type over first-order fields is first-order -/
+theorem FO.of_part {T : Table} {t : Nat} {pn : Option Name} {pfs : List (Name × Nat)}
+    (ht : T.types[t]? = some (.part pn pfs)) (hf : ∀ f ∈ pfs, FO T f.2) : FO T t := by
+  have mono : ∀ (n m t : Nat), n ≤ m → foB T n t = true → foB T m t = true := by
+    intro n
+    induction n with
+    | zero => intro m t _ h; simp [foB] at h
+    | succ n ih =>
+      intro m t hnm h
+      cases m with
+      | zero => omega
+      | succ m =>
+        unfold foB at h ⊢
+        cases hty : T.types[t]? with
+        | none => simp [hty] at h
+        | some ty =>
+          simp only [hty, Bool.and_eq_true, List.all_eq_true] at h ⊢
+          exact ⟨h.1, fun c hc => ih m c (by omega) (h.2 c hc)⟩
+  have hcommon : ∃ n, ∀ f ∈ pfs, foB T n f.2 = true := by
+    clear ht
+    induction pfs with
+    | nil => exact ⟨0, by simp⟩
+    | cons f rest ih =>
+      obtain ⟨n1, hn1⟩ := hf f (by simp)
+      obtain ⟨n2, hn2⟩ := ih (fun g hg => hf g (by simp [hg]))
+      refine ⟨max n1 n2, fun g hg => ?_⟩
+      rcases List.mem_cons.mp hg with rfl | hg
+      · exact mono n1 _ _ (Nat.le_max_left _ _) hn1
+      · exact mono n2 _ _ (Nat.le_max_right _ _) (hn2 g hg)
+  obtain ⟨n, hn⟩ := hcommon
+  refine ⟨n + 1, ?_⟩
+  unfold foB
+  simp only [ht, Ty.isFO, Ty.tupleOk, Bool.and_self, Bool.true_and, List.all_eq_true, Ty.children,
+    List.mem_map]
+  rintro c ⟨f, hf', rfl⟩
+  exact hn f hf'
+
+/-- moving a field fact to a larger table (first-order field type) -/
+theorem HasField.sub {T T' : Table} (hsub : Table.Sub T T') {l : Name} {c : Nat}
+    {qs : List (Option Name × V)} (hc : FO T c) (h : HasField T [] l c qs) : HasField T' [] l c qs := by
+  obtain ⟨q, hq, hl, hv⟩ := h
+  exact ⟨q, hq, hl, (hc.inh_sub hsub [] [] _).mp hv⟩
+
+/-- the field loop of the partial arm: either some common label has no common value (`none`), or the new
+fields are carried by every well-labelled field list that has the fields of both operands -/
+theorem meetPartFields_ok {rec : Table → Nat → Nat → TRes} (hrec : RecMeet rec) (never : Nat)
+    (fs2 : List (Name × Nat)) :
+    ∀ (l1 : List (Name × Nat)) (T : Table), (∀ f ∈ l1, FO T f.2) → (∀ f ∈ fs2, FO T f.2) →
+      T.types[never]? = some (.union []) →
+      ∀ T' res, meetPartFields rec never fs2 T l1 = some (T', res) →
+        Table.Sub T T' ∧
+        match res with
+        | none => ∀ qs, labelsDistinct qs = true → (∀ q ∈ qs, q.2.wf = true) →
+            ¬ ((∀ pf ∈ l1, HasField T [] pf.1 pf.2 qs) ∧ (∀ pf ∈ fs2, HasField T [] pf.1 pf.2 qs))
+        | some fields => (∀ f ∈ fields, FO T' f.2) ∧
+            ∀ qs, labelsDistinct qs = true → (∀ q ∈ qs, q.2.wf = true) →
+              (∀ pf ∈ l1, HasField T [] pf.1 pf.2 qs) → (∀ pf ∈ fs2, HasField T [] pf.1 pf.2 qs) →
+              ∀ pf ∈ fields, HasField T' [] pf.1 pf.2 qs := by
+  intro l1
+  induction l1 with
+  | nil =>
+    intro T _ _ _ T' res h
+    simp only [meetPartFields, Option.some.injEq, Prod.mk.injEq] at h
+    obtain ⟨rfl, rfl⟩ := h
+    exact ⟨Table.Sub.refl _, by simp, fun _ _ _ _ _ pf hpf => by simp at hpf⟩
+  | cons f1 rest ih =>
+    intro T hf1 hf2 hnever T' res h
+    unfold meetPartFields at h
+    cases hfind : fs2.find? (fun f2 => f2.1 == f1.1) with
+    | some f2 =>
+      have hmem2 : f2 ∈ fs2 := List.mem_of_find?_eq_some hfind
+      have hlab : f2.1 = f1.1 := by simpa using List.find?_some hfind
+      simp only [hfind] at h
+      cases hr : rec T f1.2 f2.2 with
+      | none => simp [hr] at h
+      | some pr =>
+        obtain ⟨T1, both⟩ := pr
+        obtain ⟨hsub1, hfo1, hkeep1⟩ := hrec T f1.2 f2.2 (hf1 f1 (by simp)) (hf2 f2 hmem2) T1 both hr
+        simp only [hr] at h
+        have hnever1 : T1.types[never]? = some (.union []) := hsub1.types _ _ hnever
+        -- the one field of a well-labelled list that carries the common label is in both field types
+        have common : ∀ qs, labelsDistinct qs = true → (∀ q ∈ qs, q.2.wf = true) →
+            HasField T [] f1.1 f1.2 qs → HasField T [] f2.1 f2.2 qs → HasField T1 [] f1.1 both qs := by
+          intro qs hld hwf ⟨q, hq, hql, hqv⟩ ⟨q', hq', hql', hqv'⟩
+          have : q = q' := labelsDistinct_unique qs hld q hq q' hq' f1.1 hql (hlab ▸ hql')
+          subst this
+          exact ⟨q, hq, hql, hkeep1 _ (hwf q hq) hqv hqv'⟩
+        split at h
+        · rename_i hboth
+          simp only [Option.some.injEq, Prod.mk.injEq] at h
+          obtain ⟨rfl, rfl⟩ := h
+          refine ⟨hsub1, fun qs hld hwf ⟨h1, h2⟩ => ?_⟩
+          obtain ⟨q, _, _, hv⟩ := common qs hld hwf (h1 f1 (by simp)) (h2 f2 hmem2)
+          rw [hboth] at hv
+          exact not_inh_never hnever1 _ _ hv
+        · have hrest := ih T1 (fun f hf => (hf1 f (by simp [hf])).sub hsub1)
+            (fun f hf => (hf2 f hf).sub hsub1) hnever1
+          cases hrec2 : meetPartFields rec never fs2 T1 rest with
+          | none => simp [hrec2] at h
+          | some pr2 =>
+            obtain ⟨T2, res2⟩ := pr2
+            obtain ⟨hsub2, hres2⟩ := hrest T2 res2 hrec2
+            simp only [hrec2] at h
+            have move1 : ∀ qs, (∀ pf ∈ rest, HasField T [] pf.1 pf.2 qs) →
+                ∀ pf ∈ rest, HasField T1 [] pf.1 pf.2 qs :=
+              fun qs hh pf hpf => (hh pf hpf).sub hsub1 (hf1 pf (by simp [hpf]))
+            have move2 : ∀ qs, (∀ pf ∈ fs2, HasField T [] pf.1 pf.2 qs) →
+                ∀ pf ∈ fs2, HasField T1 [] pf.1 pf.2 qs :=
+              fun qs hh pf hpf => (hh pf hpf).sub hsub1 (hf2 pf hpf)
+            cases res2 with
+            | none =>
+              simp only [Option.some.injEq, Prod.mk.injEq] at h
+              obtain ⟨rfl, rfl⟩ := h
+              exact ⟨hsub1.trans hsub2, fun qs hld hwf ⟨h1, h2⟩ =>
+                hres2 qs hld hwf ⟨move1 qs (fun pf hpf => h1 pf (by simp [hpf])), move2 qs h2⟩⟩
+            | some fs =>
+              simp only [Option.some.injEq, Prod.mk.injEq] at h
+              obtain ⟨rfl, rfl⟩ := h
+              obtain ⟨hfofs, hkeepfs⟩ := hres2
+              refine ⟨hsub1.trans hsub2, ?_, fun qs hld hwf h1 h2 pf hpf => ?_⟩
+              · intro f hf
+                rcases List.mem_cons.mp hf with rfl | hf
+                · exact hfo1.sub hsub2
+                · exact hfofs f hf
+              · rcases List.mem_cons.mp hpf with rfl | hpf
+                · exact (common qs hld hwf (h1 f1 (by simp)) (h2 f2 hmem2)).sub hsub2 hfo1
+                · exact hkeepfs qs hld hwf (move1 qs (fun pf hpf => h1 pf (by simp [hpf])))
+                    (move2 qs h2) pf hpf
+    | none =>
+      simp only [hfind] at h
+      have hrest := ih T (fun f hf => hf1 f (by simp [hf])) hf2 hnever
+      cases hrec2 : meetPartFields rec never fs2 T rest with
+      | none => simp [hrec2] at h
+      | some pr2 =>
+        obtain ⟨T2, res2⟩ := pr2
+        obtain ⟨hsub2, hres2⟩ := hrest T2 res2 hrec2
+        simp only [hrec2] at h
+        cases res2 with
+        | none =>
+          simp only [Option.some.injEq, Prod.mk.injEq] at h
+          obtain ⟨rfl, rfl⟩ := h
+          exact ⟨hsub2, fun qs hld hwf ⟨h1, h2⟩ =>
+            hres2 qs hld hwf ⟨fun pf hpf => h1 pf (by simp [hpf]), h2⟩⟩
+        | some fs =>
+          simp only [Option.some.injEq, Prod.mk.injEq] at h
+          obtain ⟨rfl, rfl⟩ := h
+          obtain ⟨hfofs, hkeepfs⟩ := hres2
+          refine ⟨hsub2, ?_, fun qs hld hwf h1 h2 pf hpf => ?_⟩
+          · intro f hf
+            rcases List.mem_cons.mp hf with rfl | hf
+            · exact (hf1 _ (by simp)).sub hsub2
+            · exact hfofs f hf
+          · rcases List.mem_cons.mp hpf with rfl | hpf
+            · exact (h1 _ (by simp)).sub hsub2 (hf1 _ (by simp))
+            · exact hkeepfs qs hld hwf (fun pf hpf => h1 pf (by simp [hpf])) h2 pf hpf
+
+/-- the partial-vs-partial arm (notes/C02-fixes/15) never drops a well-labelled value of both operands -/
+theorem meetPart_ok {rec : Table → Nat → Nat → TRes} (hrec : RecMeet rec) {T : Table}
+    {a b never : Nat} {n1 n2 : Option Name} {fs1 fs2 : List (Name × Nat)} (ha : FO T a) (hb : FO T b)
+    (hta : T.types[a]? = some (.part n1 fs1)) (htb : T.types[b]? = some (.part n2 fs2))
+    (hnever : T.types[never]? = some (.union [])) (hneverfo : FO T never) :
+    MeetOk T a b (meetPart rec T never n1 fs1 n2 fs2) := by
+  have hf1 := ha.part hta
+  have hf2 := hb.part htb
+  unfold meetPart
+  split
+  · rename_i hclash
+    refine MeetOk.never hneverfo (fun v _ ⟨hav, hbv⟩ => ?_)
+    obtain ⟨name, fs, rfl, hn1, _⟩ := (inh_part hta).mp hav
+    obtain ⟨name', fs', hv', hn2, _⟩ := (inh_part htb).mp hbv
+    simp only [V.tup.injEq] at hv'
+    obtain ⟨rfl, rfl⟩ := hv'
+    obtain ⟨h1, h2, hne⟩ := hclash
+    rcases hn1 with h | h
+    · rw [h] at h1; simp at h1
+    · rcases hn2 with h' | h'
+      · rw [h'] at h2; simp at h2
+      · exact hne (h.symm.trans h')
+  · intro T' r hr
+    cases hif : meetPartFields rec never fs2 T fs1 with
+    | none => simp [hif] at hr
+    | some pr =>
+      obtain ⟨T1, res⟩ := pr
+      obtain ⟨hsub1, hres⟩ := meetPartFields_ok hrec never fs2 fs1 T hf1 hf2 hnever T1 res hif
+      simp only [hif] at hr
+      cases res with
+      | none =>
+        simp only [Option.some.injEq, Prod.mk.injEq] at hr
+        obtain ⟨rfl, rfl⟩ := hr
+        refine ⟨hsub1, hneverfo.sub hsub1, fun v hwf hav hbv => ?_⟩
+        obtain ⟨name, fs, rfl, _, hr1⟩ := (inh_part hta).mp hav
+        obtain ⟨name', fs', hv', _, hr2⟩ := (inh_part htb).mp hbv
+        simp only [V.tup.injEq] at hv'
+        obtain ⟨rfl, rfl⟩ := hv'
+        exact absurd ⟨hr1, hr2⟩ (hres _ (V.wf_tup hwf).1 (V.wf_tup hwf).2)
+      | some fields =>
+        obtain ⟨hfofs, hkeep⟩ := hres
+        simp only [Option.some.injEq] at hr
+        obtain ⟨hsub2, hget2⟩ := registerType_spec T1
+          (.part (orName n1 n2) (fields ++ fs2.filter (fun f2 => !fs1.any (fun f1 => f1.1 == f2.1))))
+        have hT' : T' = (T1.registerType (.part (orName n1 n2)
+            (fields ++ fs2.filter (fun f2 => !fs1.any (fun f1 => f1.1 == f2.1))))).1 := by rw [hr]
+        have hr' : r = (T1.registerType (.part (orName n1 n2)
+            (fields ++ fs2.filter (fun f2 => !fs1.any (fun f1 => f1.1 == f2.1))))).2 := by rw [hr]
+        subst hT' hr'
+        have hsub12 := hsub1.trans hsub2
+        have hfoall : ∀ f ∈ fields ++ fs2.filter (fun f2 => !fs1.any (fun f1 => f1.1 == f2.1)),
+            FO (T1.registerType (.part (orName n1 n2)
+              (fields ++ fs2.filter (fun f2 => !fs1.any (fun f1 => f1.1 == f2.1))))).1 f.2 := by
+          intro f hf
+          rcases List.mem_append.mp hf with hf | hf
+          · exact (hfofs f hf).sub hsub2
+          · exact (hf2 f (List.mem_filter.mp hf).1).sub hsub12
+        refine ⟨hsub12, FO.of_part hget2 hfoall, fun v hwf hav hbv => ?_⟩
+        obtain ⟨name, fs, rfl, hn1, hr1⟩ := (inh_part hta).mp hav
+        obtain ⟨name', fs', hv', hn2, hr2⟩ := (inh_part htb).mp hbv
+        simp only [V.tup.injEq] at hv'
+        obtain ⟨rfl, rfl⟩ := hv'
+        refine (inh_part hget2).mpr ⟨name, fs, rfl, ?_, fun pf hpf => ?_⟩
+        · cases n1 with
+          | some p => right; rcases hn1 with h | h
+                      · cases h
+                      · simpa [orName] using h
+          | none => simpa [orName] using hn2
+        · rcases List.mem_append.mp hpf with hpf | hpf
+          · exact (hkeep _ (V.wf_tup hwf).1 (V.wf_tup hwf).2 hr1 hr2 pf hpf).sub hsub2 (hfofs pf hpf)
+          · have hm := (List.mem_filter.mp hpf).1
+            exact (hr2 pf hm).sub hsub12 (hf2 pf hm)
+
 /-- `intersect_pair` is good on first-order operands -/
 theorem intersectPair_ok (vr : Variant) (rf : Nat) {rec : Table → Nat → Nat → TRes} (hrec : RecMeet rec) (T : Table)
     (a b : Nat) (ha : FO T a) (hb : FO T b) : MeetOk T a b (intersectPair vr rf rec T a b) := by
@@ -333,6 +562,10 @@ theorem intersectPair_ok (vr : Variant) (rf : Nat) {rec : Table → Nat → Nat 
       | exact MeetOk.keep_left ha0
       | exact meetTuple_ok vr hrec ha0 hb0 hta htb hnever hneverfo
       | exact meetFallback_ok rf ha0 hb0 hneverfo
+      | (show MeetOk _ a b (if vr.partialIntersectExact = true then _ else _)
+         split
+         · exact meetPart_ok hrec ha0 hb0 hta htb hnever hneverfo
+         · exact meetFallback_ok rf ha0 hb0 hneverfo)
 
 /-! ### the loops of `intersect_types` -/
 
